@@ -701,7 +701,10 @@ func (x *Exec) applyContract(c *Contract, f *types.Func, e *ast.CallExpr, args [
 		for _, a := range c.Assigns {
 			x.heapHavoc(st, a)
 		}
-		if len(c.Assigns) == 0 && c.Opts["function"] != "true" {
+		if len(c.Assigns) == 0 && c.Trusted {
+			x.noteAssume("trusted contract " + c.Pkg + "." + c.Key + " lists no frame: assumed to leave the modelled heap unchanged")
+		}
+		if len(c.Assigns) == 0 && c.Opts["function"] != "true" && !c.Trusted {
 			// no frame given: everything the callee's body may assign (computed from its source) is havocked
 			if fd, fpkg := x.L.funcDeclPkg(f); fd != nil && fd.Body != nil {
 				save := x.pkg
